@@ -5,6 +5,7 @@ import (
 	"go/ast"
 	"go/parser"
 	"go/token"
+	"os"
 	"path/filepath"
 	"regexp"
 	"sort"
@@ -132,6 +133,9 @@ func listUnexercised(c *core.Ctx) {
 		have[e.Name] = true
 	}
 	repo := "/repo"
+	if r := os.Getenv("VERIF_REPO"); r != "" {
+		repo = r
+	}
 	dirs := map[string]string{"errors": repo, "errutil": repo + "/errutil", "withstack": repo + "/withstack", "domains": repo + "/domains"}
 	var missing []string
 	listed := 0
